@@ -11,7 +11,8 @@ def sh(c):
 
 
 def main():
-    names = [a for a in sys.argv[1:] if not a.startswith("--")] or sorted(os.listdir(os.path.join(V, "seeded")))
+    names = [a for a in sys.argv[1:] if not a.startswith("--")] or \
+        sorted(n for n in os.listdir(os.path.join(V, "seeded")) if os.path.isdir(os.path.join(V, "seeded", n)))
     rows = []
     for n in names:
         d = os.path.join(V, "seeded", n)
